@@ -48,7 +48,35 @@ func itoa(i int) string {
 
 // Run one solver with a timeout.
 func Run(s Solver, script string, timeout time.Duration) Result {
-	ctx, cancel := context.WithTimeout(context.Background(), timeout+2*time.Second)
+	return RunCtx(context.Background(), s, script, timeout)
+}
+
+// Race runs all solvers at once; the first definite answer wins and stops the others.
+func Race(script string, timeout time.Duration) Verdict {
+	t0 := time.Now()
+	ctx, cancel := context.WithCancel(context.Background())
+	defer cancel()
+	ch := make(chan Result, len(Solvers))
+	for _, s := range Solvers {
+		go func(s Solver) { ch <- RunCtx(ctx, s, script, timeout) }(s)
+	}
+	var v Verdict
+	v.Status = "undecided"
+	for range Solvers {
+		r := <-ch
+		v.Results = append(v.Results, r)
+		if r.Answer == "unsat" || r.Answer == "sat" {
+			v.Status, v.By = r.Answer, r.Solver
+			break
+		}
+	}
+	v.Secs = time.Since(t0).Seconds()
+	return v
+}
+
+// RunCtx is Run under a cancellable context.
+func RunCtx(parent context.Context, s Solver, script string, timeout time.Duration) Result {
+	ctx, cancel := context.WithTimeout(parent, timeout+2*time.Second)
 	defer cancel()
 	args := append([]string{}, s.Cmd[1:]...)
 	args = append(args, s.TOpt(int(timeout/time.Millisecond))...)
